@@ -73,3 +73,35 @@ Theorem C08_pass_moves : forall w r n a r' a',
   pc_after w r n a = Ok (r', a') ->
   replay (r_scopes r) [n] (r_cur r) (r_last r) = Some (r_cur r', r_last r') /\ ext (r_scopes r) (r_scopes r').
 Proof. exact pass_scope_moves. Qed.
+
+(** Non-interference (the "unrelated insertion" clause).  Insert, anywhere in the node list of a
+    program, a definition (a label, or a constant) of a name [z] that no expression of the program
+    mentions, directly or through a qualified name [scope.z]: both assemblies fail with the same
+    kind of error, or both succeed with the same writer blocks and the same labels up to the
+    names derived from [z].  When also no definition of the program is z-derived, the labels
+    without the insertion are exactly the labels with it minus what the insertion contributed. *)
+From A816 Require Import Model.Program Proofs.NonInterference.
+Theorem C08_noninterference : forall w r z d pre post,
+  (d = NLabel z \/ exists k, d = NSymConst z k) ->
+  exprs_fresh z (pre ++ post) = true ->
+  match assemble_nodes w r (pre ++ d :: post), assemble_nodes w r (pre ++ post) with
+  | Ok o1, Ok o2 => o_blocks o1 = o_blocks o2 /\ without z (o_labels o1) = without z (o_labels o2)
+  | Err j, Err k => j = k
+  | OutOfFuel, OutOfFuel => True
+  | _, _ => False
+  end.
+Proof. exact noninterference. Qed.
+Theorem C08_noninterference_labels : forall w r z d pre post,
+  (d = NLabel z \/ exists k, d = NSymConst z k) ->
+  fresh_for z (pre ++ post) = true -> labels_clean z r ->
+  match assemble_nodes w r (pre ++ d :: post), assemble_nodes w r (pre ++ post) with
+  | Ok o1, Ok o2 => o_blocks o1 = o_blocks o2 /\ o_labels o2 = without z (o_labels o1)
+  | Err j, Err k => j = k
+  | OutOfFuel, OutOfFuel => True
+  | _, _ => False
+  end.
+Proof. exact noninterference_labels. Qed.
+(** [zderived z n] means n = z or n = p.z; the hypotheses are satisfiable and needed
+    (Proofs/NonInterference.v, NIExamples: fresh1 / with_y / without_y, not_fresh2 / with_def2). *)
+Theorem C08_zderived : forall z n, zderived z n = true <-> n = z \/ exists p, n = p ++ dot ++ z.
+Proof. exact zderived_spec. Qed.
